@@ -53,6 +53,8 @@ impl Tier {
 
 thread_local! {
     static LAST_PANIC: RefCell<Option<String>> = RefCell::new(None);
+    /// > 0 while inside `guarded` (a panic there is an outcome); 0 = a panic of the harness itself
+    static GUARD_DEPTH: std::cell::Cell<u32> = const { std::cell::Cell::new(0) };
 }
 
 pub fn install_quiet_panic_hook() {
@@ -68,6 +70,10 @@ pub fn install_quiet_panic_hook() {
             .location()
             .map(|l| format!("{}:{}", l.file(), l.line()))
             .unwrap_or_default();
+        if GUARD_DEPTH.with(|d| d.get()) == 0 {
+            // not inside a guarded call into the code under test: a defect of the harness, show it
+            eprintln!("HARNESS PANIC: {msg} @ {loc}");
+        }
         LAST_PANIC.with(|p| *p.borrow_mut() = Some(format!("{msg} @ {loc}")));
     }));
 }
@@ -77,7 +83,10 @@ pub struct Panicked(pub String);
 
 /// Run `f`, converting a panic into `Err(Panicked(msg))`.
 pub fn guarded<T>(f: impl FnOnce() -> T) -> Result<T, Panicked> {
-    match catch_unwind(AssertUnwindSafe(f)) {
+    GUARD_DEPTH.with(|d| d.set(d.get() + 1));
+    let r = catch_unwind(AssertUnwindSafe(f));
+    GUARD_DEPTH.with(|d| d.set(d.get().saturating_sub(1)));
+    match r {
         Ok(v) => Ok(v),
         Err(_) => {
             let m = LAST_PANIC
